@@ -2,7 +2,8 @@
 import json, os, time, sys, hashlib
 
 VERIF = os.path.dirname(os.path.dirname(os.path.abspath(__file__)))
-EVID = os.path.join(VERIF, 'evidence')
+# development only (tools/try_mutant.sh): results of runs against modified copies must not overwrite the evidence of /repo
+EVID = os.environ.get('VERIF_EVIDENCE_DIR') or os.path.join(VERIF, 'evidence')
 KNOWN = os.path.join(VERIF, 'known_findings.json')
 
 
